@@ -224,6 +224,98 @@ def grid_model_group():
     return g
 
 
+def grid_update_replay(start, end, dt, with_start=True):
+    """Concrete check of the grid property through ProjectSettings.update_time_vector on default settings"""
+    import numpy as np
+    from fractions import Fraction
+    import atomica.project as aproj
+
+    st = aproj.ProjectSettings()
+    if with_start:
+        st.update_time_vector(start=start, end=end, dt=dt)
+    else:
+        st.update_time_vector(end=end, dt=dt)
+        start = st.sim_start
+    tv = st.tvec
+    q = (Fraction(end) - Fraction(start)) / Fraction(dt)
+    n_expected = math.ceil(q - Fraction(1, 10**9))  # a quotient within 1e-9 of an integer counts as that integer
+    k = np.arange(len(tv))
+    err = np.max(np.abs(tv - (start + k * dt))) if len(tv) else 0.0
+    bad = (len(tv) - 1) != n_expected or err > 1e-9
+    return bool(bad), "update_time_vector(%s%r, %r) on default settings: len(tvec)-1=%d, expected %d steps, max|t_k-(start+k*dt)|=%.3g, last=%r" % (("%r, " % start) if with_start else "end=", end, dt, len(tv) - 1, n_expected, err, tv[-1] if len(tv) else None)
+
+
+def grid_update_model_group(with_start=True):
+    """Rounding-model proof for the other entry point: update_time_vector(start, end, dt) on existing (default) settings"""
+
+    def g(tier, seed):
+        import atomica.project as aproj
+
+        t0 = time.time()
+        res = dict(name=g.__name__, functions=[aproj.ProjectSettings.update_time_vector, aproj.ProjectSettings.sim_end.fset, aproj.ProjectSettings.sim_dt.fset, aproj.ProjectSettings.tvec.fget], bounds=dict(previous="ProjectSettings() defaults (2000, 2035, 0.25)", start="[1900,2100]" if with_start else "2000 (kept)", span="[0,200]", dt="[1/512,8]", steps="<= 2**17", arithmetic="(1+d) rounding model, |d|<=2**-53 per operation"), stubs=["np.ceil/int/round -> exact integer cuts with their defining inequalities; np.linspace -> record"], assumptions=["doubles are normal and do not overflow (magnitude bounds)", "0 <= end-start <= 200, dt in [1/512,8], steps <= 2**17"], obligations=[], violations=[], errors=[], witnesses=0, stats={})
+        PS = rebound_class(aproj.ProjectSettings, dict(np=fp.MNumpy(), int=fp.m_int))
+        obs = []
+
+        def run(ctx):
+            fp.model_reset()
+            start = z3.Real("start") if with_start else z3.RealVal(2000)
+            end = z3.Real("end")
+            dt = z3.Real("dt")
+            ctx.inputs.update(end=end, dt=dt)
+            if with_start:
+                ctx.inputs.update(start=start)
+            base = [start >= 1900, start <= 2100, end >= start, end - start <= 200, dt >= z3.RealVal("1/512"), dt <= 8]
+            for c in base:
+                ctx.solver.add(c)
+            st = PS()
+            try:
+                if with_start:
+                    st.update_time_vector(start=fp.SM(start), end=fp.SM(end), dt=fp.SM(dt))
+                else:
+                    st.update_time_vector(end=fp.SM(end), dt=fp.SM(dt))
+            except AssertionError as e:
+                # an assertion of the code under test (e.g. `sim_dt > 0`): a defect only if some admissible input reaches it
+                for c in fp.model_constraints():
+                    ctx.solver.add(c)
+                obs.append(ctx.prove("no_assertion_fails[%s]" % e, z3.BoolVal(False), meta=dict(key="assertion")))
+                return True
+            n_cuts = fp.SMInt.n[0]  # the last integer cut before tvec is the np.ceil of the (last) sim_end assignment
+            grid = st.tvec
+            n_ceil = z3.Int("ceil!%d" % n_cuts)
+            for c in base + fp.model_constraints() + [z3.Int("ceil!%d" % i) <= 2**17 for i in range(1, n_cuts + 1)]:
+                ctx.solver.add(c)
+            eps = z3.RealVal("1/1000000000")
+            stop, num = grid.stop, grid.num
+            obs.append(ctx.prove("grid_count_equals_ceil_steps", num.e == z3.ToReal(n_ceil) + 1, meta=dict(key="grid_count_model")))
+            obs.append(ctx.prove("grid_end_is_first_point_at_or_after_requested_end", z3.And(stop.e >= end - eps, stop.e - dt < end + eps), meta=dict(key="grid_end_model")))
+            ctx.reachable("path-reachable")
+            return True
+
+        st = explore(run, feasibility=False, seed=seed, timeout_ms=120000)
+        res["stats"] = stats_of(st)
+        res["obligations"] = [o.as_dict() for o in st["obligations"]]
+        for o in obs:
+            if o.status == "sat":
+                from fractions import Fraction
+
+                vals = {k: float(Fraction(v)) for k, v in o.model.items() if k in ("start", "end", "dt")}
+                bad, detail = grid_update_replay(vals.get("start", 2000.0), vals["end"], vals["dt"], with_start)
+                if bad:
+                    res["violations"].append(dict(key="%s:%s" % (g.__name__, o.meta.get("key")), what=detail, model=o.model, obligations=[o.name], replay=dict(group="grid_update", start=vals.get("start", 2000.0), end=vals["end"], dt=vals["dt"], with_start=with_start)))
+                else:
+                    res["errors"].append("rounding-model obligation %s sat but its model does not reproduce in IEEE arithmetic (%s): inconclusive" % (o.name, detail))
+        bad, detail = grid_update_replay(2016.0, 2020.125, 0.125, with_start)
+        if not bad:
+            res["witnesses"] += 1
+        else:
+            res["errors"].append("witness violates the grid property: " + detail)
+        res["wall_s"] = round(time.time() - t0, 2)
+        return res
+
+    g.__name__ = "grid_update_rounding_model[%s]" % ("start,end,dt" if with_start else "end,dt")
+    return g
+
+
 # ---------------------------------------------------------------------------------------------------------------
 # C05(a): keyring size
 # ---------------------------------------------------------------------------------------------------------------
@@ -458,7 +550,7 @@ def keyring_model_group(junction_link=False):
 
 
 def c03_fp_groups(tier):
-    gs = [grid_model_group()]
+    gs = [grid_model_group(), grid_update_model_group(True), grid_update_model_group(False)]
     if tier != "quick":
         # bit-exact bounded proofs on slices of the dt range (best effort: the rounding-model group decides the claim)
         import numpy as np
@@ -482,6 +574,8 @@ def fp_replay(rec):
     r = rec["replay"]
     if r["group"] == "grid":
         return grid_replay(r["start"], r["end"], r["dt"])
+    if r["group"] == "grid_update":
+        return grid_update_replay(r["start"], r["end"], r["dt"], r.get("with_start", True))
     if r["group"] == "keyring":
         got = keyring_replay(r["D"], r["dt"])
         if r.get("k") is not None:
